@@ -613,7 +613,7 @@ fn models(tier: Tier) -> Vec<(String, Arc<M>, Vec<Plan>)> {
                 vec![
                     Plan::Dev { k: 2, depth: 45, default: Arc::new(move |_| sec) },
                     Plan::Dev { k: 2, depth: 45, default: Arc::new(move |_| idle) },
-                    Plan::Dev { k: 3, depth: 20, default: Arc::new(move |_| sec) },
+                    Plan::Dev { k: 3, depth: if timeout == 1000 { 12 } else { 16 }, default: Arc::new(move |_| sec) },
                 ],
             ));
         }
